@@ -47,7 +47,8 @@ def run(pid, tier):
         p = vlib.run_cmd([bins["vh_lib"], "delta-cases", cpath, opath, str(vlib.seed()), tier, copia,
                           os.path.join(work, "cli")], timeout=6000, env=env)
         if p.returncode != 0:
-            raise vlib.ToolError("vh_lib delta-cases failed: " + p.stderr.decode()[-2000:])
+            vlib.harness_died(vd, "vh_lib delta-cases", p)
+            return vd.finish()
         nonconf = 0
         for line in open(opath):
             d = json.loads(line)
@@ -69,7 +70,8 @@ def run(pid, tier):
 
         p = vlib.run_cmd([bins["vh_lib"], "delta-large", os.path.join(work, "L"), str(vlib.seed()), tier], timeout=3000)
         if p.returncode != 0:
-            raise vlib.ToolError("vh_lib delta-large failed: " + p.stderr.decode()[-2000:])
+            vlib.harness_died(vd, "vh_lib delta-large", p)
+            return vd.finish()
         ls = json.loads(p.stdout.decode().strip().splitlines()[-1])
 
         def validate(fn):
